@@ -417,14 +417,16 @@ theorem pstep_other (c : Cfg) (tck : Nat) (s : PSt) (p : PCall) (o : Nat) (h : p
   unfold pstep
   split
   · rfl
-  · simp only
-    split
-    · split
-      · simp [pset_other _ _ _ _ ho]
-      · rfl
-    · split
-      · split <;> simp [pset_other _ _ _ _ ho]
-      · rfl
+  · split
+    · rfl
+    · simp only
+      split
+      · split
+        · simp [pset_other _ _ _ _ ho]
+        · rfl
+      · split
+        · split <;> simp [pset_other _ _ _ _ ho]
+        · rfl
 
 /-- the state after a `Process.cpu_percent` call, object by object -/
 theorem pstep_same (c : Cfg) (tck : Nat) (s : PSt) (p : PCall) :
@@ -435,7 +437,9 @@ theorem pstep_same (c : Cfg) (tck : Nat) (s : PSt) (p : PCall) :
   unfold pstep ptaken
   by_cases hn : p.negative = true
   · simp [hn]
-  · simp only [hn, Bool.false_eq_true, if_false]
+  by_cases hv : p.vanishes = true
+  · simp [hn, hv]
+  · simp only [hn, hv, Bool.false_eq_true, if_false]
     by_cases hb : p.blocking = true
     · simp only [hb, if_true]
       cases p.timer with
